@@ -11,12 +11,12 @@ from harness import selectcheck
 
 
 def run(ctx):
-    ctx.rule = ('S2C: tables of <= 3 rows (quick: every 4th; thorough: <= 4 rows every 6th) x the ordering query space (~430 '
+    ctx.rule = ('S2C: tables of <= 3 rows (quick: every 8th; thorough: <= 4 rows every 6th) x the ordering query space (~430 '
                 'shapes); distinct = (query skeleton, table); non-trivial = table non-empty; C2S: random')
     ctx.assumptions += ['output names kept distinct (a name reference to a duplicated name is unspecified)',
                         'values of one sort key have one type; decimals exact small rationals',
                         'TLC 1.8, CPython 3.12, harness/bql.py + selectq.py (projection)']
-    selectcheck.run_mc_and_replay(ctx, 'order', 3, 4, 4, 6, nonvac=('limitfirst', ('PhaseOrderLaw', 'DistinctLaw')))
+    selectcheck.run_mc_and_replay(ctx, 'order', 3, 8, 4, 6, nonvac=('limitfirst', ('PhaseOrderLaw', 'DistinctLaw')))
     selectcheck.record_and_validate(ctx, 'order', ctx.pick(1500, 20000), 30)
     selectcheck.typed_tables_leg(ctx, 'order', ctx.pick(120, 1500))
     ctx.exhaustive = False
